@@ -1,7 +1,11 @@
 """C06 - all ranks issue matching collectives; no layout change can deadlock.
 
-Engine B (pgverif/spmd.py): rules B0-B4 over every function that (transitively)
-issues a collective, in the units below.
+Engine B (pgverif/spmd.py): rules B0-B3 over every function that (transitively)
+issues a collective, in the units below; B4 (route search: total tie-break, rank-uniform
+conditions), B5 (geometry of the variable-count gather, record layout agreed between members and
+root), B6 (root role decided with the rank on the collective's communicator), B7 (send / receive
+lengths of Alltoall / Allgather), B8 (no rank-local raise before collectives) and two refinements of engine B's verdicts (presence of
+attributes, loops over literal tables) live in this file.
 """
 from __future__ import annotations
 
@@ -119,7 +123,40 @@ def _two_level(e):
     return None
 
 
-def _route_search_verdict(loop, env, sname):
+def _lexicographic(l, r, vsrc, tsrc):
+    """(k(cand), ..., cand) ? (k(stored), ..., stored): two tuples of one length whose last components are the candidate and the
+    stored route and whose earlier components are the same expression of the candidate resp. the stored route.  Tuples compare
+    lexicographically, so the order is total on distinct routes whatever the keys are.  -> 1 (candidate on the left), -1, or 0"""
+    if not (isinstance(l, ast.Tuple) and isinstance(r, ast.Tuple) and len(l.elts) == len(r.elts) >= 2):
+        return 0
+    for sign, (c, s_) in ((1, (l, r)), (-1, (r, l))):
+        if src(c.elts[-1]) == vsrc and src(s_.elts[-1]) == tsrc and \
+                all(src(kc).replace(vsrc, tsrc) == src(ks) and src(kc) != src(ks) or src(kc) == src(ks)
+                    for kc, ks in zip(c.elts[:-1], s_.elts[:-1])):
+            return sign
+    return 0
+
+
+def _is_distance_pair(cand, stored, keys):
+    """candidate distance (sum of two entries of a table) against the entry [from][to] of the same table"""
+    tl = _two_level(stored)
+    return bool(tl and tl[0] != ROUTE_TABLE and tuple(tl[1:]) == tuple(keys) and isinstance(cand, ast.BinOp) and
+                isinstance(cand.op, ast.Add) and all((_two_level(x) or ("",))[0] == tl[0] for x in (cand.left, cand.right)))
+
+
+def _lex_combined(l, r, vsrc, tsrc, keys):
+    """(candidate distance, ..., candidate route) ? (stored distance, ..., stored route): the two tests `strictly shorter` and
+    `equally long and smaller route` merged into one lexicographic comparison -> 1 (candidate on the left), -1, or 0"""
+    if not (isinstance(l, ast.Tuple) and isinstance(r, ast.Tuple) and len(l.elts) == len(r.elts) >= 2):
+        return 0
+    for sign, (c, s_) in ((1, (l, r)), (-1, (r, l))):
+        if _is_distance_pair(c.elts[0], s_.elts[0], keys) and src(c.elts[-1]) == vsrc and src(s_.elts[-1]) == tsrc and \
+                all(src(kc).replace(vsrc, tsrc) == src(ks) for kc, ks in zip(c.elts[1:-1], s_.elts[1:-1])):
+            return sign
+    return 0
+
+
+def _route_search_verdict(loop, env, sname, conds_out=None):
     """three-valued verdict on the relaxation inside `loop`: every store into the route table is reached only when the candidate is
     strictly shorter than the stored route, or equally long and smaller in a total order of the routes -> (ok, why)"""
     stores = []
@@ -140,6 +177,8 @@ def _route_search_verdict(loop, env, sname):
         if pc is None:
             return None, f"the conditions under which `{src(st[0])[:60]}` is reached are not recognised"
         groups.setdefault(tuple(sorted(src(c) for c in pc)), (pc, []))[1].append(st)
+        if conds_out is not None:
+            conds_out.append((st[0], pc))
     kinds = []          # (kind, group stores, text of the disjunct)
     for key, (pc, sts) in groups.items():
         cond = ast.BoolOp(op=ast.And(), values=pc) if len(pc) > 1 else pc[0] if pc else None
@@ -150,6 +189,7 @@ def _route_search_verdict(loop, env, sname):
         for conj in dnf:
             dsign, rsign, seen_d, seen_r = {-1, 0, 1}, {-1, 0, 1}, False, False
             mentions_routes = False
+            combined = None
             for a, neg in conj:
                 if neg or not (isinstance(a, ast.Compare) and len(a.ops) == 1 and type(a.ops[0]) in _SIGNS):
                     mentions_routes = mentions_routes or ROUTE_TABLE in src(a) or any(st[2] in src(a) for st in sts)
@@ -159,25 +199,33 @@ def _route_search_verdict(loop, env, sname):
                 l, r, sg = a.left, a.comparators[0], _SIGNS[type(a.ops[0])]
                 flipped = {-x for x in sg}
                 for _, tsrc, vsrc, keys in sts:
-                    # candidate route against the stored route
-                    if src(l) == vsrc and src(r) == tsrc:
+                    cb = _lex_combined(l, r, vsrc, tsrc, keys)
+                    if cb:
+                        combined = (sg if cb == 1 else flipped) if combined is None else combined & (sg if cb == 1 else flipped)
+                        break
+                    # candidate route against the stored route (alone, or as the last component of two tuples compared
+                    # lexicographically whose earlier components are one key function applied to either route)
+                    lex = _lexicographic(l, r, vsrc, tsrc)
+                    if (src(l) == vsrc and src(r) == tsrc) or lex == 1:
                         rsign, seen_r = rsign & sg, True
-                    elif src(r) == vsrc and src(l) == tsrc:
+                    elif (src(r) == vsrc and src(l) == tsrc) or lex == -1:
                         rsign, seen_r = rsign & flipped, True
                     # candidate distance (sum of two entries of a table) against the entry [from][to] of the same table
                     for stored, cand, s_ in ((r, l, sg), (l, r, flipped)):
-                        tl = _two_level(stored)
-                        if tl and tl[0] != ROUTE_TABLE and tuple(tl[1:]) == tuple(keys) and isinstance(cand, ast.BinOp) and \
-                                isinstance(cand.op, ast.Add) and all((_two_level(x) or ("",))[0] == tl[0] for x in (cand.left, cand.right)):
+                        if _is_distance_pair(cand, stored, keys):
                             dsign, seen_d = dsign & s_, True
                             break
                     else:
                         continue
                     break
             text = " and ".join(("not " if neg else "") + src(a) for a, neg in conj) or "always"
-            if (seen_d and not dsign) or (seen_r and not rsign):
+            if (seen_d and not dsign) or (seen_r and not rsign) or (combined is not None and not combined):
                 continue                                   # contradictory: never taken
-            if not seen_d:
+            if combined is not None and not seen_d and not seen_r:
+                # (distance, route) of the candidate below that of the stored route: strictly shorter, or equally long and smaller
+                # (with <= also the identical route, which changes nothing)
+                kinds.append(("combined" if combined <= {-1, 0} else "unknown", sts, text))
+            elif not seen_d:
                 kinds.append(("unknown", sts, text))
             elif dsign == {-1}:
                 kinds.append(("strict", sts, text))
@@ -200,7 +248,7 @@ def _route_search_verdict(loop, env, sname):
     if unk:
         return None, (f"`{src(unk[0][1][0][0])[:70]}` is reached when `{unk[0][2][:120]}`: not recognised as `candidate strictly shorter` or "
                       "`equally long and candidate route smaller than the stored one`")
-    ties = [x for x in kinds if x[0] == "tiebreak"]
+    ties = [x for x in kinds if x[0] in ("tiebreak", "combined")]
     if not ties:
         if not kinds:
             return None, "no reachable store into the route table"
@@ -214,7 +262,154 @@ def _route_search_verdict(loop, env, sname):
     return True, "routes are replaced when strictly shorter, or when equally long and smaller in the (total) order of the routes; both directions stored"
 
 
-def b4_route_determinism(chk, mod):
+def _free_inputs(fn, exprs):
+    """what the expressions read: (plain names, self attributes).  Calls of functions defined inside `fn` (closures) and lambdas
+    are followed into their bodies: what they read from the enclosing scope is read by the expression."""
+    local_defs = {n.name: n for n in ast.walk(fn) if isinstance(n, ast.FunctionDef) and n is not fn}
+    names, attrs, seen = set(), set(), set()
+
+    def bound_in(node):
+        b = set()
+        for n in ast.walk(node):
+            if isinstance(n, ast.arg):
+                b.add(n.arg)
+            elif isinstance(n, ast.Name) and isinstance(n.ctx, ast.Store):
+                b.add(n.id)
+        return b
+
+    def visit(node, bound):
+        lam = set()
+        for n in ast.walk(node):
+            if isinstance(n, (ast.Lambda, ast.ListComp, ast.SetComp, ast.GeneratorExp, ast.DictComp)):
+                lam |= bound_in(n)
+        for n in ast.walk(node):
+            if isinstance(n, ast.Attribute) and isinstance(n.value, ast.Name) and n.value.id == "self":
+                attrs.add("self." + n.attr)
+            elif isinstance(n, ast.Name) and isinstance(n.ctx, ast.Load) and n.id not in bound and n.id not in lam and n.id != "self":
+                if n.id in local_defs:
+                    if n.id not in seen:
+                        seen.add(n.id)
+                        f = local_defs[n.id]
+                        for st in f.body:
+                            visit(st, bound | bound_in(f))
+                else:
+                    names.add(n.id)
+    for e in exprs:
+        visit(e, set())
+    return names, attrs, sorted(seen)
+
+
+def b4_choice_uniform(chk, mod, fn, conds, s):
+    """every condition that governs a store into the route table reads rank-uniform values only: the route search runs on every
+    rank on its own, so the routes agree only if every comparison it makes comes out the same everywhere.  Labels come from the
+    flow analysis of engine B; parameters of the search are resolved at its call sites."""
+    import builtins
+    from ..spmd import nonuniform, params_of
+    q = "LayoutManager._makeConnectionMap"
+    fi = s.funcs.get((mod.rel, q))
+    if fi is None or not conds:
+        return None
+    lf = s.analyse(fi)
+    exprs = [c for _, pc in conds for c in pc]
+    names, attrs, via_funcs = _free_inputs(fn, exprs)
+    params = [p_ for p_ in fi.params if p_ != "self"]
+    assigned = {}
+    for n in ast.walk(fn):
+        if isinstance(n, ast.Assign):
+            for t in n.targets:
+                for x in ast.walk(t):
+                    if isinstance(x, ast.Name) and isinstance(x.ctx, ast.Store):
+                        assigned.setdefault(x.id, []).append(n.value)
+    labels, origin = set(), {}
+
+    def add(ls, what):
+        for l_ in ls:
+            labels.add(l_)
+            origin.setdefault(l_, what)
+    for nm in sorted(names):
+        seen_nodes = [n for n in ast.walk(fn) if isinstance(n, ast.Name) and n.id == nm and isinstance(n.ctx, ast.Load) and n in lf.at]
+        if seen_nodes:
+            for n in seen_nodes:
+                add(lf.at[n], nm)
+            if nm in params and nm not in assigned:
+                add({f"P:{nm}"}, nm)
+        elif nm in params:
+            add({f"P:{nm}"}, nm)
+        elif nm in assigned:
+            for v in assigned[nm]:
+                add(lf.at.get(v, set()), nm)
+        elif hasattr(builtins, nm) or nm in ("np", "numpy", "MPI", "math"):
+            continue
+    for at in sorted(attrs):
+        if at == ROUTE_TABLE:
+            continue
+        nodes = [n for n in ast.walk(fn) if isinstance(n, ast.Attribute) and src(n) == at and n in lf.at]
+        if nodes:
+            for n in nodes:
+                add(lf.at[n], at)
+        else:
+            add(s.attr_label(fi.cls, at.split(".", 1)[1]), at)
+    quoted = " and ".join(sorted({src(c) for c in exprs}))[:160]
+    # values that differ between interpreters by construction
+    local_defs = {n.name: n for n in ast.walk(fn) if isinstance(n, ast.FunctionDef) and n is not fn}
+    bodies = list(exprs) + [st for nm in via_funcs for st in local_defs[nm].body]
+    for b_ in bodies:
+        for n in ast.walk(b_):
+            if isinstance(n, ast.Call) and src(n.func) in ("hash", "id", "random.random", "np.random.rand", "np.random.random", "os.getpid",
+                                                           "time.time", "random.choice", "random.shuffle"):
+                return chk.ob("B4-choice-uniform", conds[0][0], "conditions of the route updates", False,
+                              f"the route update is governed by `{quoted}`, which uses `{src(n)[:50]}`: the value differs between the "
+                              "interpreters of different ranks (string hashes are salted per process, object identities and clocks are "
+                              "local), so ranks keep different routes and then transpose over different communicators", file=mod.rel, func=q)
+    through = f" (through the local function(s) {', '.join(via_funcs)})" if via_funcs else ""
+    nu = nonuniform(labels)
+    if nu:
+        l0 = sorted(nu)[0]
+        return chk.ob("B4-choice-uniform", conds[0][0], "conditions of the route updates", False,
+                      f"the route update is governed by `{quoted}`, which reads `{origin[l0]}`{through}, a value that differs between "
+                      f"ranks (labels {sorted(nu)}): ranks keep different routes and then transpose over different communicators",
+                      file=mod.rel, func=q)
+    # parameters: every call site must pass rank-uniform values
+    sites = []
+    for key, cfi in s.funcs.items():
+        for c in ast.walk(cfi.node):
+            if isinstance(c, ast.Call) and isinstance(c.func, ast.Attribute) and c.func.attr == "_makeConnectionMap" and \
+                    s._owner(c) is cfi.node:
+                sites.append((cfi, c))
+    verdict, why = True, ""
+    cache = {}
+    for p_ in sorted(params_of(labels) - {"self"}):
+        if p_ not in params:
+            continue
+        for cfi, c in sites:
+            k = params.index(p_)
+            actual = c.args[k] if k < len(c.args) else next((kw.value for kw in c.keywords if kw.arg == p_), None)
+            if actual is None:
+                continue            # the default value: a constant of the source text
+            if any(isinstance(a, ast.Starred) for a in c.args) or any(kw.arg is None for kw in c.keywords):
+                verdict, why = None, f"the call `{src(c)[:60]}` passes its arguments by unpacking: `{p_}` is not resolved"
+                continue
+            clf = cache.get(cfi.qual) or cache.setdefault(cfi.qual, s.analyse(cfi))
+            al = clf.at.get(actual)
+            if al is None:
+                verdict, why = None, f"no labels for the actual `{src(actual)[:40]}` of `{p_}` in {cfi.qual}"
+                continue
+            if nonuniform(al):
+                return chk.ob("B4-choice-uniform", conds[0][0], "conditions of the route updates", False,
+                              f"the route update is governed by `{quoted}`, which reads the parameter `{origin['P:' + p_]}`{through}; "
+                              f"{cfi.qual} passes `{src(actual)[:50]}` for it, whose entries differ between ranks (labels "
+                              f"{sorted(nonuniform(al))}: computed from rank-local quantities such as the local block shape): ranks rank "
+                              "the candidate routes differently, keep different routes and then transpose over different communicators",
+                              file=mod.rel, func=q, facts={"labels": sorted(al), "param": p_})
+    if not sites and params_of(labels) - {"self"}:
+        verdict, why = None, "no call site of the route search was found: its parameters are not resolved"
+    return chk.ob("B4-choice-uniform", conds[0][0], "conditions of the route updates", verdict,
+                  why or f"`{quoted}` reads only the connection graph and the tables built from it; every call site passes "
+                  "rank-uniform values (layout names and their connections, the same on all ranks)", file=mod.rel, func=q,
+                  facts={"labels": sorted(labels), "call_sites": len(sites)})
+
+
+def b4_route_determinism(chk, mod, spmd=None):
     """The hash-ordered choice in the route search is compensated by a total-order
     tie-break on equal distances (DESIGN 4.1 B4 / 5 C06-4)."""
     fn = mod.func("LayoutManager._makeConnectionMap")
@@ -222,6 +417,7 @@ def b4_route_determinism(chk, mod):
     sites, setvars = unordered_sites(fn)
     ok_all = True
     env = _alias_env(fn)
+    conds = []
     for node, kind, sname in sites:
         loop = node
         while loop is not None and not isinstance(loop, (ast.While, ast.For)):
@@ -229,10 +425,18 @@ def b4_route_determinism(chk, mod):
         if loop is None:
             ok, detail = None, f"the choice `{kind}({sname})` is not made inside a loop: the route search was not recognised"
         else:
-            ok, detail = _route_search_verdict(loop, env, sname)
+            ok, detail = _route_search_verdict(loop, env, sname, conds if not conds else None)
         chk.ob("B4-unordered-choice", node, f"{kind}({sname})", ok, detail, file=mod.rel,
                func="LayoutManager._makeConnectionMap")
         ok_all = ok_all and (ok is not False)
+    if spmd is not None:
+        if not conds:
+            # no unordered choice (or search not recognised): take the stores into the route table of the whole function
+            for lp in [n for n in fn.body if isinstance(n, (ast.For, ast.While))]:
+                tmp = []
+                _route_search_verdict(lp, env, "", tmp)
+                conds.extend(x for x in tmp if x[1])
+        b4_choice_uniform(chk, mod, fn, conds, spmd)
     if not sites:
         chk.ob("B4-unordered-choice", fn, "no unordered choice", True,
                "route search no longer iterates over an unordered collection", file=mod.rel,
@@ -291,6 +495,764 @@ class LayoutManager:
         raise AnalysisError("B4 self-test: rule did not fire on the synthetic search without tie-break")
 
 
+# ------------------------------------------------------------------ B1 refinement: presence of attributes
+_ALLOC = {"empty", "zeros", "ones", "ndarray", "array", "empty_like", "zeros_like", "ones_like", "full", "arange", "linspace"}
+
+
+class _Presence:
+    """`x is None` of an actual argument, decided apart from the content of what it names.  Engine B tracks presence apart from
+    content for local names only; for an attribute `self.a` it falls back on the content labels of the attribute (an array that
+    holds rank-local data is then 'non-uniformly present').  Here the presence of an attribute is the join, over every assignment
+    `self.a = v` of the class, of the conditions under which the assignment is reached and of the presence of v."""
+
+    def __init__(self, s):
+        self.s = s
+        self._lf = {}
+
+    def lf(self, fi):
+        k = (fi.rel, fi.qual)
+        if k not in self._lf:
+            self._lf[k] = self.s.analyse(fi)
+        return self._lf[k]
+
+    def pc(self, fi, node):
+        """labels of the conditions under which the statement is reached (enclosing tests, exits of enclosing loops)"""
+        from ..core import guards_of
+        lf = self.lf(fi)
+        out = set()
+        for test, _, kind in guards_of(node):
+            l_ = lf.at.get(test)
+            if l_ is None:
+                return None
+            out |= l_
+        p_ = parent(node)
+        while p_ is not None and p_ is not fi.node:
+            if isinstance(p_, (ast.For, ast.While)):
+                for x in ast.walk(p_):
+                    if isinstance(x, (ast.Break, ast.Continue)):
+                        out |= lf.at.get(x, set())
+            p_ = parent(p_)
+        return out
+
+    def of_expr(self, fi, e, visiting):
+        """labels of `e is None`, or None when not decided"""
+        if isinstance(e, ast.Constant):
+            return set()
+        if isinstance(e, (ast.Subscript, ast.List, ast.Tuple, ast.Dict, ast.BinOp, ast.Compare, ast.ListComp, ast.JoinedStr)):
+            return set()
+        if isinstance(e, ast.Attribute) and isinstance(e.value, ast.Name) and e.value.id == "self" and fi.cls:
+            return self.of_attr(fi.cls, e.attr, visiting)
+        if isinstance(e, ast.IfExp):
+            a, b = self.of_expr(fi, e.body, visiting), self.of_expr(fi, e.orelse, visiting)
+            t = self.lf(fi).at.get(e.test)
+            return None if a is None or b is None or t is None else a | b | t
+        if isinstance(e, ast.Call):
+            f = e.func
+            if isinstance(f, ast.Attribute) and isinstance(f.value, ast.Name) and f.value.id in ("np", "numpy") and f.attr in _ALLOC:
+                return set()
+            l_ = self.lf(fi).at.get(e)
+            return None if l_ is None else {x for x in l_ if not x.startswith("P:")}
+        if isinstance(e, ast.Name):
+            key = ("name", fi.qual, e.id)
+            if key in visiting:
+                return set()
+            defs, other = [], False
+            for n in ast.walk(fi.node):
+                if isinstance(n, ast.Assign):
+                    for t in n.targets:
+                        if isinstance(t, ast.Name) and t.id == e.id:
+                            defs.append((n, n.value))
+                        elif isinstance(t, (ast.Tuple, ast.List)) and any(isinstance(x, ast.Name) and x.id == e.id for x in ast.walk(t)):
+                            if isinstance(n.value, (ast.Tuple, ast.List)) and len(n.value.elts) == len(t.elts) and \
+                                    all(isinstance(x, ast.Name) for x in t.elts):
+                                defs.extend((n, v) for x, v in zip(t.elts, n.value.elts) if x.id == e.id)
+                            else:
+                                other = True
+                elif isinstance(n, (ast.For, ast.comprehension, ast.AugAssign, ast.AnnAssign, ast.NamedExpr)) and \
+                        any(isinstance(x, ast.Name) and x.id == e.id for x in ast.walk(n.target)):
+                    other = True
+                elif isinstance(n, ast.withitem) and n.optional_vars is not None and \
+                        any(isinstance(x, ast.Name) and x.id == e.id for x in ast.walk(n.optional_vars)):
+                    other = True
+            if other:
+                return None
+            out = set()
+            if e.id in fi.params:
+                out.add(f"P:{e.id}?")
+            elif not defs:
+                return None
+            for st, v in defs:
+                pcl = self.pc(fi, st)
+                pv = self.of_expr(fi, v, visiting | {key})
+                if pcl is None or pv is None:
+                    return None
+                out |= pcl | pv
+            return out
+        return None
+
+    def of_attr(self, cls, attr, visiting=frozenset()):
+        key = ("attr", cls, attr)
+        if key in visiting:
+            return set()
+        classes = set(self.s.prog.mro(cls) + self.s.prog.subclasses(cls))
+        out, found = set(), False
+        for fi in self.s.funcs.values():
+            if fi.cls not in classes:
+                continue
+            for n in ast.walk(fi.node):
+                pairs = []
+                if isinstance(n, ast.Assign):
+                    for t in n.targets:
+                        if isinstance(t, ast.Attribute) and isinstance(t.value, ast.Name) and t.value.id == "self" and t.attr == attr:
+                            pairs.append(n.value)
+                        elif isinstance(t, (ast.Tuple, ast.List)) and any(src(x) == "self." + attr for x in t.elts):
+                            if isinstance(n.value, (ast.Tuple, ast.List)) and len(n.value.elts) == len(t.elts):
+                                pairs.extend(v for x, v in zip(t.elts, n.value.elts) if src(x) == "self." + attr)
+                            else:
+                                return None
+                elif isinstance(n, (ast.AnnAssign, ast.For, ast.withitem, ast.NamedExpr)):
+                    tg = getattr(n, "target", None) or getattr(n, "optional_vars", None)
+                    if tg is not None and any(src(x) == "self." + attr for x in ast.walk(tg) if isinstance(x, ast.Attribute)):
+                        return None
+                for v in pairs:
+                    found = True
+                    pcl = self.pc(fi, n)
+                    pv = self.of_expr(fi, v, visiting | {key})
+                    if pcl is None or pv is None:
+                        return None
+                    out |= {x for x in pcl | pv if not x.startswith("P:")}
+                    if any(x.startswith("P:") for x in pv):
+                        return None         # presence handed in from outside the class: not followed
+        return out if found else None
+
+
+def _single_local_def(fn, name):
+    d = [n for n in ast.walk(fn) if isinstance(n, ast.Assign) and len(n.targets) == 1 and isinstance(n.targets[0], ast.Name)
+         and n.targets[0].id == name]
+    st = [n for n in ast.walk(fn) if isinstance(n, ast.Name) and n.id == name and isinstance(n.ctx, ast.Store)]
+    return d[0].value if len(d) == 1 and len(st) == 1 else None
+
+
+def _table_rows(fn, it, depth=0):
+    """rows of a loop over a table written out in the source (directly or through a local assigned once): list/tuple display, dict
+    display and its items()/keys()/values(), enumerate / zip / reversed of such tables, range(constant).  The number of rows is
+    fixed by the source text.  -> list of row nodes, or None"""
+    if depth > 4:
+        return None
+    if isinstance(it, ast.Name):
+        v = _single_local_def(fn, it.id)
+        return _table_rows(fn, v, depth + 1) if v is not None else None
+    if isinstance(it, (ast.Tuple, ast.List)):
+        return None if any(isinstance(x, ast.Starred) for x in it.elts) else list(it.elts)
+    if isinstance(it, ast.Dict):
+        return None if any(k is None for k in it.keys) else list(it.keys)
+    if isinstance(it, ast.Call) and isinstance(it.func, ast.Attribute) and it.func.attr in ("items", "keys", "values") and not it.args:
+        d = it.func.value
+        if isinstance(d, ast.Name):
+            d = _single_local_def(fn, d.id)
+        if isinstance(d, ast.Dict) and not any(k is None for k in d.keys):
+            if it.func.attr == "items":
+                return [ast.Tuple(elts=[k, v], ctx=ast.Load()) for k, v in zip(d.keys, d.values)]
+            return list(d.keys if it.func.attr == "keys" else d.values)
+        return None
+    if isinstance(it, ast.Call) and isinstance(it.func, ast.Name):
+        if it.func.id == "enumerate" and it.args:
+            rows = _table_rows(fn, it.args[0], depth + 1)
+            st = it.args[1] if len(it.args) > 1 else next((k.value for k in it.keywords if k.arg == "start"), ast.Constant(value=0))
+            if rows is None or not (isinstance(st, ast.Constant) and isinstance(st.value, int)):
+                return None
+            return [ast.Tuple(elts=[ast.Constant(value=st.value + i), r], ctx=ast.Load()) for i, r in enumerate(rows)]
+        if it.func.id == "zip" and it.args and not it.keywords:
+            cols = [_table_rows(fn, a, depth + 1) for a in it.args]
+            if any(c is None for c in cols) or len({len(c) for c in cols}) != 1:
+                return None
+            return [ast.Tuple(elts=list(r), ctx=ast.Load()) for r in zip(*cols)]
+        if it.func.id in ("reversed", "list", "tuple") and len(it.args) == 1:
+            rows = _table_rows(fn, it.args[0], depth + 1)
+            return None if rows is None else (list(reversed(rows)) if it.func.id == "reversed" else rows)
+        if it.func.id == "range" and len(it.args) == 1 and isinstance(it.args[0], ast.Constant) and isinstance(it.args[0].value, int):
+            return [ast.Constant(value=i) for i in range(min(it.args[0].value, 64))]
+    return None
+
+
+def _bind_rows(target, rows):
+    """loop target names -> the nodes they take, row by row; None when the rows do not have the shape of the target"""
+    out = {}
+
+    def go(t, n):
+        if isinstance(t, ast.Name):
+            out.setdefault(t.id, []).append(n)
+            return True
+        if isinstance(t, (ast.Tuple, ast.List)) and isinstance(n, (ast.Tuple, ast.List)) and len(t.elts) == len(n.elts):
+            return all(go(a, b) for a, b in zip(t.elts, n.elts))
+        return False
+    return out if all(go(target, r) for r in rows) else None
+
+
+def _uniform_literal(n):
+    """an expression whose value is fixed by the source text: constants, names of the mpi4py / numpy namespaces"""
+    return isinstance(n, ast.Constant) or (isinstance(n, ast.Attribute) and isinstance(n.value, ast.Name) and n.value.id in ("MPI", "np", "numpy")) \
+        or (isinstance(n, ast.UnaryOp) and _uniform_literal(n.operand))
+
+
+def refine_tables(chk, held, s):
+    """obligations engine B reports as violated because a loop runs over a table written out in the source whose ENTRIES carry
+    rank-dependent labels (result buffers, say): the trip count of such a loop is the number of rows in the source, and a loop
+    variable takes the entries of its column only"""
+    for rule, node, construct, ok, msg, kw in held:
+        fi = s.funcs.get((kw.get("file"), kw.get("func")))
+        verdict, why = False, msg
+        if fi is not None and rule == "B1-loop-trip-uniform" and isinstance(node, ast.For) and not str(construct).startswith("break in"):
+            rows = _table_rows(fi.node, node.iter)
+            if rows is not None:
+                verdict, why = True, (f"the loop runs over a table of {len(rows)} rows written out in the source: every rank makes the same "
+                                      "number of passes, whatever the entries hold (labels of the entries: " + msg[-60:] + ")")
+        elif fi is not None and rule in ("B2-op-uniform", "B2-root-uniform") and isinstance(node, ast.Call):
+            from ..spmd import kwarg, ROOT_POS
+            e = kwarg(node, "op") if rule == "B2-op-uniform" else kwarg(node, "root")
+            if e is None and rule == "B2-root-uniform" and node.func.attr in ROOT_POS and len(node.args) > ROOT_POS[node.func.attr]:
+                e = node.args[ROOT_POS[node.func.attr]]
+            if isinstance(e, ast.Name):
+                p_ = parent(node)
+                while p_ is not None and p_ is not fi.node:
+                    if isinstance(p_, ast.For) and any(isinstance(x, ast.Name) and x.id == e.id for x in ast.walk(p_.target)):
+                        rows = _table_rows(fi.node, p_.iter)
+                        b = _bind_rows(p_.target, rows) if rows is not None else None
+                        if b is not None and e.id in b and all(_uniform_literal(x) for x in b[e.id]):
+                            verdict, why = True, (f"`{e.id}` takes the entries {sorted({src(x) for x in b[e.id]})} of a table written out in "
+                                                  "the source: the same on every rank at every pass")
+                        break
+                    p_ = parent(p_)
+        chk.ob(rule, node, construct, verdict, why, **kw)
+
+
+class _Deferring:
+    """stands for the Check while engine B runs: obligations B1-arg-uniform on the PRESENCE of an actual (`p?`) that engine B would
+    report as violated are kept back and decided again with the finer presence analysis above; everything else passes through"""
+
+    def __init__(self, chk):
+        object.__setattr__(self, "_chk", chk)
+        object.__setattr__(self, "_held", [])
+        object.__setattr__(self, "_held_tables", [])
+
+    def __getattr__(self, k):
+        return getattr(self._chk, k)
+
+    def __setattr__(self, k, v):
+        setattr(self._chk, k, v)
+
+    def ob(self, rule, node, construct, ok, msg="", **kw):
+        if rule == "B1-arg-uniform" and ok is False and str((kw.get("facts") or {}).get("param", "")).endswith("?") \
+                and isinstance(node, ast.Call):
+            self._held.append((rule, node, construct, ok, msg, kw))
+            return None
+        if rule in ("B1-loop-trip-uniform", "B2-op-uniform", "B2-root-uniform") and ok is False:
+            self._held_tables.append((rule, node, construct, ok, msg, kw))
+            return None
+        return self._chk.ob(rule, node, construct, ok, msg, **kw)
+
+
+def _actual_of(call, callee, p):
+    """the expression bound to parameter `p` of `callee` at `call` (same convention as engine B's binding)"""
+    params = [x for x in callee.params]
+    if callee.cls and params and params[0] == "self" and not (isinstance(call.func, ast.Attribute) and
+                                                              isinstance(call.func.value, ast.Name) and call.func.value.id == callee.cls):
+        params = params[1:]
+    for k in call.keywords:
+        if k.arg == p:
+            return k.value
+    if p in params and params.index(p) < len(call.args) and not any(isinstance(a, ast.Starred) for a in call.args):
+        return call.args[params.index(p)]
+    return None
+
+
+def refine_presence(chk, held, s):
+    from ..spmd import nonuniform
+    pr = _Presence(s)
+    for rule, call, construct, ok, msg, kw in held:
+        fi = s.funcs.get((kw.get("file"), kw.get("func")))
+        p = kw["facts"]["param"][:-1]
+        verdict, why = False, msg
+        if fi is not None:
+            actual = None
+            for c2, tg in fi.callee_sites:
+                if c2 is call:
+                    for t in tg:
+                        actual = actual or _actual_of(call, s.funcs[t], p)
+            if actual is not None:
+                try:
+                    labs = pr.of_expr(fi, actual, frozenset())
+                except RecursionError:
+                    labs = None
+                if labs is None:
+                    verdict = None
+                    why = (f"whether `{src(actual)[:50]}` is None on the same ranks everywhere is not decided: engine B does not track the "
+                           f"presence of this value apart from its content (content labels: {kw['facts'].get('labels')}) and the assignments "
+                           "that decide its presence are not all recognised; " + msg[:200])
+                elif not nonuniform(labs):
+                    verdict = True
+                    why = (f"presence of the actual `{src(actual)[:50]}` for `{p}` (is it None?) depends only on rank-uniform conditions "
+                           f"(labels {sorted(labs)}): every assignment that reaches it is an allocation, a constant or another such value, "
+                           "under rank-uniform guards; the content labels of the array do not decide `is None`")
+                else:
+                    why = msg + f"; presence labels {sorted(labs)}"
+        chk.ob(rule, call, construct, verdict, why, **kw)
+
+
+# ------------------------------------------------------------------ B6
+def _rank_comm(prog, mod, fn, x, env):
+    """x denotes a rank: -> ('expr', communicator source, where) / ('attr', attr, communicator source in the defining method,
+    defining method node) / ('unknown', text) / None when x is not recognised as a rank at all"""
+    x = expand(x, env)
+    if isinstance(x, ast.Call) and isinstance(x.func, ast.Attribute) and x.func.attr == "Get_rank" and not x.args:
+        return ("expr", src(x.func.value))
+    from ..spmd import is_comm_expr
+    if isinstance(x, ast.Attribute) and x.attr == "rank" and not (isinstance(x.value, ast.Name) and x.value.id == "self") and \
+            is_comm_expr(x.value):
+        return ("expr", src(x.value))            # mpi4py: Comm.rank is Comm.Get_rank()
+    if isinstance(x, ast.Attribute) and isinstance(x.value, ast.Name) and x.value.id == "self":
+        q = getattr(fn, "_qual", "")
+        cls = q.split(".")[0] if "." in q else None
+        defs = []
+        if cls:
+            for c in prog.mro(cls) or [cls]:
+                if c not in prog.classes:
+                    continue
+                for m in prog.classes[c][1].body:
+                    if isinstance(m, ast.FunctionDef):
+                        for n in ast.walk(m):
+                            if isinstance(n, ast.Assign) and any(src(t) == src(x) for t in n.targets):
+                                defs.append((m, n.value))
+        ranks = [(m, expand(v, _alias_env(m))) for m, v in defs]
+        if ranks and all(isinstance(v, ast.Call) and isinstance(v.func, ast.Attribute) and v.func.attr == "Get_rank" for _, v in ranks):
+            if len({src(v.func.value) for _, v in ranks}) == 1:
+                return ("attr", src(x), src(ranks[0][1].func.value), ranks[0][0])
+            return ("unknown", src(x))
+        if defs and not any("rank" in src(v).lower() for _, v in defs):
+            return None
+        return ("unknown", src(x)) if "rank" in x.attr.lower() else None
+    if isinstance(x, ast.Name) and "rank" in x.id.lower():
+        return ("unknown", x.id)
+    if isinstance(x, ast.Attribute) and "rank" in x.attr.lower():
+        return ("unknown", src(x))
+    if isinstance(x, ast.Call) and isinstance(x.func, ast.Attribute) and "rank" in x.func.attr.lower():
+        return ("unknown", src(x))
+    return None
+
+
+def b6_root_role(chk, prog):
+    """where a function asks `am I the root of this collective?`, the rank it compares with the root must be the rank on the
+    communicator of the collective: a rank is a numbering of ONE communicator"""
+    from ..spmd import ROOTED, ROOT_POS, is_comm_expr, kwarg
+    n_obs = 0
+    for rel in UNITS:
+        mod = chk.mod(rel)
+        for q, fn in mod.functions().items():
+            own = [n for n in ast.walk(fn) if isinstance(n, (ast.Call, ast.Compare))]
+            rooted = []
+            for c in own:
+                if isinstance(c, ast.Call) and isinstance(c.func, ast.Attribute) and c.func.attr in ROOTED and is_comm_expr(c.func.value) \
+                        and not src(c.func.value).startswith(("np.", "numpy.")):
+                    root = kwarg(c, "root")
+                    if root is None and len(c.args) > ROOT_POS[c.func.attr]:
+                        root = c.args[ROOT_POS[c.func.attr]]
+                    rooted.append((c, src(expand(c.func.value, _alias_env(fn))), src(root) if root is not None else "0"))
+            if not rooted:
+                continue
+            env = _alias_env(fn)
+            params = {a.arg for a in fn.args.args + fn.args.kwonlyargs}
+            for g in own:
+                if not (isinstance(g, ast.Compare) and len(g.ops) == 1 and isinstance(g.ops[0], (ast.Eq, ast.NotEq))):
+                    continue
+                for c, comm, root in rooted:
+                    sides = [(g.left, g.comparators[0]), (g.comparators[0], g.left)]
+                    x = next((a for a, b in sides if src(b) == root or src(expand(b, env)) == root), None)
+                    if x is None:
+                        continue
+                    rc = _rank_comm(prog, mod, fn, x, env)
+                    if rc is None:
+                        continue
+                    coll = f"{comm}.{c.func.attr}(..., root={root})"
+                    if rc[0] == "expr":
+                        if rc[1] == comm:
+                            ok, why = True, f"`{src(g)}` compares the rank on `{comm}` with the root of `{coll}`"
+                        elif comm in params or rc[1] in params:
+                            ok, why = False, (f"`{src(g)}` decides who acts as the root of `{coll}` with the rank on `{rc[1]}`, but `{root}` is a "
+                                              f"rank on `{comm}`: the two numberings agree only if both are the same communicator; otherwise the "
+                                              "root of the collective takes the member branch (no receive buffer) and another rank the root branch")
+                        else:
+                            ok, why = None, f"`{src(g)}`: whether `{rc[1]}` and `{comm}` are the same communicator is not decided"
+                    elif rc[0] == "attr":
+                        _, attr, dcomm, meth = rc
+                        same = None
+                        if comm.startswith("self."):
+                            cdefs = [n.value for n in ast.walk(meth) if isinstance(n, ast.Assign) and any(src(t) == comm for t in n.targets)]
+                            if cdefs and all(src(v) == dcomm for v in cdefs):
+                                same = True
+                            elif dcomm == comm:
+                                same = True
+                        if same:
+                            ok, why = True, (f"`{attr}` is the rank on `{dcomm}`, the communicator kept as `{comm}` by "
+                                             f"{getattr(meth, '_qual', meth.name)}: the same numbering as the root of `{coll}`")
+                        elif comm in params:
+                            ok, why = False, (f"`{src(g)}` decides who acts as the root of `{coll}` with `{attr}`, the rank on the communicator "
+                                              f"`{dcomm}` given to {getattr(meth, '_qual', meth.name)}, but `{root}` is a rank on the communicator "
+                                              f"`{comm}` passed to {q}: the numberings agree only when both are the same communicator; on any other "
+                                              "(sub-)communicator the root of the gather takes the member branch (its send buffer as receive buffer, "
+                                              "returns None) and a non-root rank takes the root branch")
+                        else:
+                            ok, why = None, f"`{src(g)}`: whether `{attr}` (rank on `{dcomm}`) is a rank on `{comm}` is not decided"
+                    else:
+                        ok, why = None, f"`{src(g)}`: `{rc[1]}` looks like a rank but the communicator it belongs to is not resolved"
+                    chk.ob("B6-root-role", g, f"{src(g)} for {coll}", ok, why, file=rel, func=q)
+                    n_obs += 1
+                    break
+    return n_obs
+
+
+
+# ------------------------------------------------------------------ B7
+def _reaching_def(fn, name, at):
+    """the assignment `name = ...` that reaches the statement containing `at`: the nearest one before it in its own block or in an
+    enclosing block (assignments hidden in earlier branches make it ambiguous) -> Assign node or None"""
+    node = at
+    while node is not None and not isinstance(node, ast.stmt):
+        node = parent(node)
+    while node is not None and node is not fn:
+        par = parent(node)
+        for f_ in ("body", "orelse", "finalbody"):
+            blk = getattr(par, f_, None)
+            if isinstance(blk, list) and node in blk:
+                for prev in reversed(blk[:blk.index(node)]):
+                    if isinstance(prev, ast.Assign) and any(isinstance(t, ast.Name) and t.id == name for t in prev.targets):
+                        return prev
+                    if any(isinstance(x, ast.Name) and x.id == name and isinstance(x.ctx, ast.Store) for x in ast.walk(prev)):
+                        return None
+        if isinstance(par, (ast.For, ast.While)) and any(isinstance(x, ast.Name) and x.id == name and isinstance(x.ctx, ast.Store)
+                                                         for x in ast.walk(par)):
+            return None
+        node = par
+    return None
+
+
+def _view_length(fn, e, depth=0, at=None):
+    """number of elements of a buffer handed to a collective: np.split(X, [L])[0] / X[:L] (optionally reshaped), followed through
+    the definitions that reach the call -> (length node, text of the definition) or None"""
+    at = at if at is not None else e
+    if depth > 4:
+        return None
+    if isinstance(e, (ast.Tuple, ast.List)) and e.elts:
+        return _view_length(fn, e.elts[0], depth + 1, at)            # (buffer, MPI.DOUBLE)
+    if isinstance(e, ast.Name):
+        d = _reaching_def(fn, e.id, at)
+        if d is not None:
+            return _view_length(fn, d.value, depth + 1, d)
+        return None
+    if isinstance(e, ast.Call) and isinstance(e.func, ast.Attribute) and e.func.attr in ("reshape", "ravel", "flatten", "view"):
+        return _view_length(fn, e.func.value, depth + 1, at)
+    if isinstance(e, ast.Subscript) and src(e.slice) == "0" and isinstance(e.value, ast.Call) and src(e.value.func) in ("np.split", "numpy.split") \
+            and len(e.value.args) >= 2 and isinstance(e.value.args[1], (ast.List, ast.Tuple)) and len(e.value.args[1].elts) == 1:
+        return e.value.args[1].elts[0], src(e)
+    if isinstance(e, ast.Subscript) and isinstance(e.slice, ast.Slice) and e.slice.lower is None and e.slice.step is None and \
+            e.slice.upper is not None:
+        return e.slice.upper, src(e)
+    return None
+
+
+def _count_expr(fn, n, comm):
+    """length expression as a sympy polynomial over opaque atoms; the size of `comm` is one atom whatever it is called"""
+    import sympy as sp
+    SIZE = sp.Symbol("SIZE")
+
+    def go(x):
+        if isinstance(x, ast.Constant) and isinstance(x.value, int):
+            return sp.Integer(x.value)
+        if isinstance(x, ast.BinOp) and isinstance(x.op, (ast.Add, ast.Sub, ast.Mult)):
+            a, b = go(x.left), go(x.right)
+            return a + b if isinstance(x.op, ast.Add) else a - b if isinstance(x.op, ast.Sub) else a * b
+        if isinstance(x, ast.Call) and isinstance(x.func, ast.Attribute) and x.func.attr == "Get_size" and src(x.func.value) == comm:
+            return SIZE
+        if isinstance(x, ast.Attribute) and x.attr == "size" and src(x.value) == comm:
+            return SIZE
+        if isinstance(x, ast.Name):
+            ds = _defs_of(fn, x.id)
+            if len(ds) == 1 and isinstance(ds[0].value, ast.Call) and isinstance(ds[0].value.func, ast.Attribute) and \
+                    ds[0].value.func.attr == "Get_size" and src(ds[0].value.func.value) == comm:
+                return SIZE
+            if len(ds) == 1 and isinstance(ds[0].value, ast.Call) and src(ds[0].value.func) == "int" and len(ds[0].value.args) == 1:
+                return go(ds[0].value.args[0])
+        if isinstance(x, ast.Call) and src(x.func) == "int" and len(x.args) == 1:
+            return go(x.args[0])
+        return sp.Symbol("`" + src(x) + "`")
+    return go(n), SIZE
+
+
+def _local_size(fn, n):
+    """is the length the actual number of local points of a layout (`L.size`, np.prod(L.shape)) - a quantity that differs between
+    ranks as soon as the blocks are uneven?  -> text or None"""
+    x = n
+    if isinstance(x, ast.Name):
+        ds = _defs_of(fn, x.id)
+        if len(ds) == 1:
+            x = ds[0].value
+    if isinstance(x, ast.Attribute) and x.attr == "size" and "layout" in src(x.value).lower():
+        return src(x)
+    if isinstance(x, ast.Call) and src(x.func) in ("np.prod", "numpy.prod") and x.args and isinstance(x.args[0], ast.Attribute) and \
+            x.args[0].attr == "shape" and "layout" in src(x.args[0].value).lower():
+        return src(x)
+    return None
+
+
+def b7_collective_counts(chk):
+    """Alltoall / Allgather (the variants without explicit counts): the count is the length of the buffer, so every rank must hand in
+    buffers of one length, and the receive buffer holds size x (Allgather) resp. exactly (Alltoall) what is sent.  The two lengths of
+    one call are compared with each other as expressions."""
+    import sympy as sp
+    n = 0
+    for rel in UNITS:
+        mod = chk.mod(rel)
+        for q, fn in mod.functions().items():
+            for c in ast.walk(fn):
+                if not (isinstance(c, ast.Call) and isinstance(c.func, ast.Attribute) and c.func.attr in ("Alltoall", "Allgather")
+                        and len(c.args) >= 2):
+                    continue
+                comm = src(c.func.value)
+                ls, lr = _view_length(fn, c.args[0]), _view_length(fn, c.args[1])
+                n += 1
+                what = f"{comm}.{c.func.attr}: send count vs receive count"
+                if ls is None or lr is None:
+                    chk.ob("B7-collective-counts", c, what, None, f"length of the {'send' if ls is None else 'receive'} buffer "
+                           f"`{src(c.args[0] if ls is None else c.args[1])[:50]}` not recognised", file=rel, func=q)
+                    continue
+                (es, SIZE), (er, _) = _count_expr(fn, ls[0], comm), _count_expr(fn, lr[0], comm)
+                want = es * SIZE if c.func.attr == "Allgather" else es
+                if sp.expand(er - want) == 0:
+                    chk.ob("B7-collective-counts", c, what, True,
+                           f"every rank sends `{src(ls[0])}` elements and receives `{src(lr[0])}`" +
+                           (" = size x the send count" if c.func.attr == "Allgather" else ", the same number"), file=rel, func=q)
+                    continue
+                loc_s, loc_r = _local_size(fn, ls[0]), _local_size(fn, lr[0])
+                if (loc_s is None) != (loc_r is None):
+                    side, loc, other = ("send", loc_s, src(lr[0])) if loc_s else ("receive", loc_r, src(ls[0]))
+                    chk.ob("B7-collective-counts", c, what, False,
+                           f"the {side} buffer `{(ls if loc_s else lr)[1][:70]}` has `{loc}` elements, the actual number of local points, which "
+                           f"differs between ranks as soon as the blocks are uneven, while the other side is sized with `{other}` (padded to the "
+                           f"largest block): the ranks hand counts to {c.func.attr} that do not match (truncated or mismatched buffers)",
+                           file=rel, func=q)
+                else:
+                    chk.ob("B7-collective-counts", c, what, None, f"send length `{src(ls[0])}` and receive length `{src(lr[0])}` are not "
+                           "related by the communicator size as expressions: not decided", file=rel, func=q)
+    return n
+
+
+# ------------------------------------------------------------------ B8
+def b8_local_raise(chk, s, tracers):
+    """an explicit `raise` taken under a rank-dependent condition, with collectives still to come in the function (or in the loop
+    around it): the rank that raises leaves, the others enter the collective and wait for it.  (assert statements are debugging
+    checks and stay under the assumption that a failed check stops the job.)"""
+    from ..core import guards_of
+    from ..spmd import nonuniform
+    n = 0
+    for key, tr in tracers.items():
+        fi = s.funcs[key]
+        lf = tr.lf
+        events = sorted(tr.ev_nodes, key=lambda c: (c.lineno, c.col_offset))
+        if not events:
+            continue
+        for r in ast.walk(fi.node):
+            if not (isinstance(r, ast.Raise) and s._owner(r) is fi.node):
+                continue
+            if any(isinstance(p_, ast.ExceptHandler) for p_ in _ancestors(r, fi.node)):
+                continue                                   # re-raise inside a handler
+            labs, tests = set(), []
+            for t, pol, kind in guards_of(r):
+                if kind in ("if", "while", "ifexp"):
+                    labs |= lf.at.get(t, set())
+                    tests.append(("" if pol else "not ") + src(t)[:50])
+            loops = [p_ for p_ in _ancestors(r, fi.node) if isinstance(p_, (ast.For, ast.While))]
+            later = [c for c in events if c.lineno > r.lineno or any(c in set(ast.walk(lp)) for lp in loops)]
+            if not later or not tests:
+                continue
+            n += 1
+            nu = nonuniform(labs)
+            if nu and nu <= {"AXIS"}:
+                # a check on sizes / shapes of the local block (argument validation): the labels cannot tell whether it can come out
+                # differently on different ranks for the arguments the callers pass
+                chk.ob("B8-local-raise", r, f"raise under `{' and '.join(tests)[:90]}`", None,
+                       f"`{src(r)[:60]}` is reached under a test on block sizes or shapes (labels {sorted(nu)}), with collectives still to "
+                       "come: whether the test can differ between ranks is not decided", file=fi.rel, func=fi.qual, facts={"labels": sorted(labs)})
+                continue
+            chk.ob("B8-local-raise", r, f"raise under `{' and '.join(tests)[:90]}`", not nu,
+                   "the condition is rank-uniform: every rank raises or none" if not nu else
+                   f"`{src(r)[:60]}` is reached under `{' and '.join(tests)[:90]}`, which differs between ranks (labels {sorted(nu)}); "
+                   f"the collective `{src(later[0])[:50]}` still follows: the rank that raises leaves {fi.qual}, the other ranks enter the "
+                   "collective and wait for it for ever (an uncaught exception in one process does not stop the others)",
+                   file=fi.rel, func=fi.qual, facts={"labels": sorted(labs)})
+    return n
+
+
+def _ancestors(node, stop):
+    out, p_ = [], parent(node)
+    while p_ is not None and p_ is not stop:
+        out.append(p_)
+        p_ = parent(p_)
+    return out
+
+
+# ------------------------------------------------------------------ B9
+def _set_typed(fn, e, depth=0):
+    """is the expression a set (iteration order = hash order)?  -> (True, element kind 'str' | 'int' | None) or None.  Set displays and
+    comprehensions, set()/frozenset(), the set algebra of sets and dict views (`d.keys() - {...}` is a plain set), locals and class
+    attributes assigned once to such a value."""
+    if depth > 4:
+        return None
+
+    def kind_of(nodes):
+        ks = {("str" if isinstance(x, ast.Constant) and isinstance(x.value, str) else
+               "int" if isinstance(x, ast.Constant) and isinstance(x.value, int) else None) for x in nodes}
+        return ks.pop() if len(ks) == 1 else None
+
+    def view(x):
+        """dict view (keys / items) -> element kind, through a local or a class attribute holding a dict display"""
+        if isinstance(x, ast.Call) and isinstance(x.func, ast.Attribute) and x.func.attr in ("keys", "items") and not x.args:
+            d = _resolve_literal(fn, x.func.value)
+            if isinstance(d, ast.Dict):
+                return (kind_of([k for k in d.keys if k is not None]) if x.func.attr == "keys" else None, True)
+            return (None, True)
+        return None
+    if isinstance(e, ast.Set):
+        return True, kind_of(e.elts)
+    if isinstance(e, ast.SetComp):
+        return True, None
+    if isinstance(e, ast.Call) and isinstance(e.func, ast.Name) and e.func.id in ("set", "frozenset"):
+        inner = _resolve_literal(fn, e.args[0]) if e.args else None
+        k = kind_of(inner.elts) if isinstance(inner, (ast.List, ast.Tuple, ast.Set)) else \
+            kind_of([x for x in inner.keys if x is not None]) if isinstance(inner, ast.Dict) else None
+        return True, k
+    if isinstance(e, ast.BinOp) and isinstance(e.op, (ast.Sub, ast.BitAnd, ast.BitOr, ast.BitXor)):
+        sides = []
+        for x in (e.left, e.right):
+            st_ = _set_typed(fn, x, depth + 1)
+            vw = view(x)
+            sides.append(st_[1] if st_ else vw[0] if vw else "none")
+            if not st_ and not vw:
+                sides[-1] = "none"
+        if all(x == "none" for x in sides):
+            return None
+        ks = {x for x in sides if x != "none"}
+        return True, (ks.pop() if len(ks) == 1 else None)
+    if isinstance(e, ast.Call) and isinstance(e.func, ast.Attribute) and e.func.attr in ("union", "intersection", "difference",
+                                                                                      "symmetric_difference", "copy"):
+        return _set_typed(fn, e.func.value, depth + 1)
+    lit = _resolve_literal(fn, e) if isinstance(e, (ast.Name, ast.Attribute)) else None
+    if lit is not None and lit is not e:
+        return _set_typed(fn, lit, depth + 1)
+    return None
+
+
+def _resolve_literal(fn, e):
+    """the value of a local assigned once, or of an attribute assigned once in the class (class body or through self), else e"""
+    if isinstance(e, ast.Name):
+        v = _single_local_def(fn, e.id)
+        return v if v is not None else e
+    if isinstance(e, ast.Attribute) and isinstance(e.value, ast.Name) and e.value.id in ("self", "cls") and isinstance(parent(fn), ast.ClassDef):
+        cls_ = parent(fn)
+        defs = [st.value for st in cls_.body if isinstance(st, ast.Assign) and any(isinstance(t, ast.Name) and t.id == e.attr for t in st.targets)]
+        defs += [n.value for n in ast.walk(cls_) if isinstance(n, ast.Assign) and any(isinstance(t, ast.Attribute) and t.attr == e.attr and
+                                                                                      src(t.value) in ("self", "cls") for t in n.targets)]
+        return defs[0] if len(defs) == 1 else e
+    return e
+
+
+def b9_ordered_collective_loops(chk, s, tracers):
+    """a loop that issues collectives visits its table in the same order on every rank: not in the iteration order of a set, which
+    for strings depends on the hash seed of each interpreter"""
+    n = 0
+    for key, tr in tracers.items():
+        fi = s.funcs[key]
+        for lp in ast.walk(fi.node):
+            if not (isinstance(lp, ast.For) and s._owner(lp) is fi.node and tr.has_events(lp.body)):
+                continue
+            it = lp.iter
+            if isinstance(it, ast.Call) and isinstance(it.func, ast.Name) and it.func.id == "sorted":
+                continue
+            if isinstance(it, ast.Call) and isinstance(it.func, ast.Name) and it.func.id in ("enumerate", "list", "tuple", "reversed", "iter") and it.args:
+                it = it.args[0]
+            st_ = _set_typed(fi.node, it)
+            if st_ is None:
+                continue
+            n += 1
+            kind = st_[1]
+            ok = True if kind == "int" else False if kind == "str" else None
+            chk.ob("B9-collective-order", lp, f"for {src(lp.target)} in {src(lp.iter)[:60]}", ok,
+                   "the set holds small integers, whose iteration order is the same in every interpreter" if ok else
+                   (f"the loop issues collectives in the iteration order of the set `{src(lp.iter)[:60]}`; its elements are strings, whose hash "
+                    "is salted per interpreter: the ranks (separate processes) visit the entries in different orders, so a collective for one "
+                    "entry on one rank meets the collective for another entry (another operation, another buffer) on another rank"
+                    if ok is False else
+                    f"the loop issues collectives in the iteration order of the set `{src(lp.iter)[:60]}`; whether that order is the same in "
+                    "every interpreter depends on the type of the elements, which was not determined"), file=fi.rel, func=fi.qual)
+    return n
+
+
+# ------------------------------------------------------------------ B10
+def b10_split_roles(chk):
+    """where a communicator is split by a test on the rank (`comm.Split(rank == R, ...)`), every other test of the same rank against
+    an expression of the same quantity designates the same rank: the process that is split off is the one treated as split off"""
+    n = 0
+    for rel in UNITS:
+        mod = chk.mod(rel)
+        for q, fn in mod.functions().items():
+            env = _alias_env(fn)
+            splits = [c for c in ast.walk(fn) if isinstance(c, ast.Call) and isinstance(c.func, ast.Attribute) and c.func.attr == "Split"
+                      and c.args]
+            for sp_ in splits:
+                color = expand(sp_.args[0], env)
+                comm = src(expand(sp_.func.value, env))
+                if not (isinstance(color, ast.Compare) and len(color.ops) == 1 and isinstance(color.ops[0], (ast.Eq, ast.NotEq))):
+                    continue
+
+                def is_rank(a):
+                    if isinstance(a, ast.Name):
+                        v = _single_local_def(fn, a.id)
+                        a = expand(v, env) if v is not None else a
+                    return isinstance(a, ast.Call) and isinstance(a.func, ast.Attribute) and a.func.attr == "Get_rank" and \
+                        src(a.func.value) == comm
+
+                def rank_side(cmp_):
+                    for a, b in ((cmp_.left, cmp_.comparators[0]), (cmp_.comparators[0], cmp_.left)):
+                        if is_rank(a):
+                            return b
+                    return None
+                ref = rank_side(color)
+                if ref is None:
+                    continue
+                ref_names = {x.id for x in ast.walk(ref) if isinstance(x, ast.Name)}
+                for g in ast.walk(fn):
+                    if not (isinstance(g, ast.Compare) and len(g.ops) == 1 and isinstance(g.ops[0], (ast.Eq, ast.NotEq))):
+                        continue
+                    if any(g is x for x in ast.walk(sp_)):
+                        continue
+                    ge = expand(g, env)
+                    other = rank_side(ge)
+                    if other is None:
+                        continue
+                    onames = {x.id for x in ast.walk(other) if isinstance(x, ast.Name)}
+                    if not (onames & ref_names):
+                        continue                       # a test against another quantity: another role
+                    n += 1
+                    same = src(other) == src(ref)
+                    if not same and any(isinstance(x, (ast.IfExp, ast.BoolOp, ast.Compare, ast.Lambda)) for x in ast.walk(other)):
+                        same = None                   # a conditional designation: may well be the same rank in every case that matters
+                    chk.ob("B10-split-role", g, f"{src(g)[:60]} vs {comm}.Split({src(sp_.args[0])[:40]}, ...)", same,
+                           f"the rank tested is the rank the communicator is split by (`{src(ref)}`)" if same else
+                           f"`{src(g)[:70]}` designates the rank `{src(other)}` of `{comm}`, but the communicator was split by "
+                           f"`{src(sp_.args[0])[:50]}`, i.e. at the rank `{src(ref)}`: when the two differ the process treated as split off "
+                           "still belongs to the other group's communicator (and the one split off is treated as a member), so the groups "
+                           "issue collectives on communicators whose members do not all take part", file=rel, func=q)
+    return n
+
+
 # ------------------------------------------------------------------ B5
 GATHERV_TEMPLATE = """
 sizes = [coords.pop() for coords in mpi_data]
@@ -302,20 +1264,108 @@ comm.Gatherv(toSend, (mySlice, sizes, starts, MPI.DOUBLE), rank)
 """
 
 
+def _defs_of(fn, name):
+    return [n for n in ast.walk(fn) if isinstance(n, ast.Assign) and any(isinstance(t, ast.Name) and t.id == name for t in n.targets)]
+
+
+def _one_of(node, forms, vars=(), bind=None):
+    from ..core import same_expr
+    return any(same_expr(node, f, vars=vars, bind=bind) for f in forms)
+
+
 def b5_gatherv_geometry(chk):
-    """the root's receive specification of the variable-count gather matches what the members send"""
+    """the root's receive specification of the variable-count gather matches what the members send: counts = what every member
+    reported (gathered on the same communicator to the same root), displacements = their exclusive prefix sums, receive buffer of
+    their total; every member reports the size of the very buffer it sends.  Decided piece by piece on the definitions that reach
+    the Gatherv call, so that equivalent spellings (sizes[:-1], len(sizes)-1, comm.Get_size()-1; sum / np.sum) are the same."""
     from ..core import find, contains
     q = "Grid.getBlockForFig"
     fn = chk.func(U.GRID, q)
     calls = [n for n in ast.walk(fn) if isinstance(n, ast.Call) and isinstance(n.func, ast.Attribute) and n.func.attr == "Gatherv"]
-    if len(calls) != 2:
-        raise AnalysisError(f"C06: expected the root and the member Gatherv of {q}, found {len(calls)}")
-    b = find(fn, GATHERV_TEMPLATE, vars=("comm", "mpi_data", "toSend", "rank", "coords"))
-    bad = None
-    if b is None:
-        root = [c for c in calls if len(c.args) >= 2 and isinstance(c.args[1], (ast.Tuple, ast.List))]
-        if root and isinstance(root[0].args[1].elts[0], ast.Name):
-            rn = root[0].args[1].elts[0].id
+    if not calls:
+        chk.ob("B5-gatherv-geometry", fn, "variable-count gather of the figure block", None, f"no Gatherv call found in {q}: how the "
+               "blocks are collected on the drawing rank was not recognised", file=U.GRID, func=q)
+        return
+    b = find(fn, GATHERV_TEMPLATE, vars=("comm", "mpi_data", "toSend", "rank", "coords")) if len(calls) == 2 else None
+    bad, why_not = None, ""
+
+    def spec_of(c):
+        """the (buffer, counts, displacements, ...) receive specification of a Gatherv call: written in the call, or bound to a
+        local that is the specification on the root and None / the send buffer elsewhere"""
+        a = c.args[1] if len(c.args) >= 2 else next((k.value for k in c.keywords if k.arg == "recvbuf"), None)
+        if isinstance(a, ast.Name):
+            ds = [d.value for d in _defs_of(fn, a.id)]
+            tu = [d for d in ds if isinstance(d, (ast.Tuple, ast.List)) and len(d.elts) >= 3]
+            if len(tu) == 1 and all(d is tu[0] or (isinstance(d, ast.Constant) and d.value is None) or isinstance(d, ast.Name) for d in ds):
+                return tu[0]
+            return None
+        return a if isinstance(a, (ast.Tuple, ast.List)) and len(a.elts) >= 3 else None
+    root = [c for c in calls if spec_of(c) is not None]
+    if b is None and root:
+        rc = root[0]
+        comm = src(rc.func.value)
+        rk = src(rc.args[2]) if len(rc.args) > 2 else src(next((k.value for k in rc.keywords if k.arg == "root"), None))
+        buf, counts, displs = spec_of(rc).elts[:3]
+        full = inline_locals(fn)
+        pieces = {}
+        # counts: the last entry of what every member sent to the gather on the same communicator and root
+        if isinstance(counts, ast.Name) and len(_defs_of(fn, counts.id)) == 1:
+            v = _defs_of(fn, counts.id)[0].value
+            if isinstance(v, ast.ListComp) and len(v.generators) == 1 and isinstance(v.generators[0].target, ast.Name) and \
+                    isinstance(v.generators[0].iter, ast.Name) and not v.generators[0].ifs:
+                c_, d_ = v.generators[0].target.id, v.generators[0].iter.id
+                dd = _defs_of(fn, d_)
+                unpack = "last" if _one_of(v.elt, (f"{c_}.pop()", f"{c_}[-1]", f"{c_}.pop(-1)")) else \
+                    "first" if _one_of(v.elt, (f"{c_}.pop(0)", f"{c_}[0]")) else None
+                if unpack and len(dd) == 1 and \
+                        _one_of(dd[0].value, (f"{comm}.gather(INFO, root={rk})", f"{comm}.gather(INFO, {rk})"), vars=("INFO",)):
+                    pieces["counts"] = dd[0].value.args[0]
+                    pieces["unpack"] = (unpack, src(v.elt))
+        # displacements: exclusive prefix sums of the counts
+        if isinstance(displs, ast.Name) and isinstance(counts, ast.Name):
+            cn, dn = counts.id, displs.id
+            upto = (f"{cn}[:-1]", f"{cn}[:len({cn}) - 1]", f"{cn}[:{comm}.Get_size() - 1]", f"{cn}[0:-1]")
+            dd = _defs_of(fn, dn)
+            subs = [n for n in ast.walk(fn) if isinstance(n, ast.Assign) and len(n.targets) == 1 and isinstance(n.targets[0], ast.Subscript)
+                    and src(n.targets[0].value) == dn]
+            if len(dd) == 1 and len(subs) == 1 and _one_of(dd[0].value, (f"np.zeros(len({cn}), int)", f"np.zeros(len({cn}), dtype=int)",
+                                                                        f"np.zeros({comm}.Get_size(), int)", f"np.zeros({comm}.Get_size(), dtype=int)",
+                                                                        f"np.zeros_like({cn})")) \
+                    and src(subs[0].targets[0].slice) == "1:":
+                if any(_one_of(subs[0].value, (f"np.cumsum({u})",)) for u in upto):
+                    pieces["displs"] = True
+                elif _one_of(subs[0].value, (f"np.cumsum({cn}[1:])", f"np.cumsum({cn})[1:]")):
+                    bad = (f"the displacements `{dn}[1:] = {src(subs[0].value)}` are not the exclusive prefix sums of the counts `{cn}`: "
+                           "block r does not start where blocks 0..r-1 end, so the gathered blocks overlap or leave gaps")
+            elif len(dd) == 1 and not subs:
+                forms = [f"np.concatenate(([0], np.cumsum({u})))" for u in upto] + [f"np.cumsum([0] + {u})" for u in upto] + \
+                    [f"np.cumsum({cn}) - {cn}", f"np.cumsum({cn}) - np.array({cn})"]
+                if _one_of(dd[0].value, forms):
+                    pieces["displs"] = True
+                elif _one_of(dd[0].value, (f"np.cumsum({cn})",)):
+                    bad = (f"the displacements `{dn} = np.cumsum({cn})` are the INCLUSIVE prefix sums of the counts: block r is placed "
+                           "where it ends, the first block does not start at 0 and the last one runs past the receive buffer")
+        # receive buffer: exactly the total
+        if isinstance(buf, ast.Name) and isinstance(counts, ast.Name) and len(_defs_of(fn, buf.id)) == 1:
+            v = _defs_of(fn, buf.id)[0].value
+            if isinstance(v, ast.Call) and src(v.func) in ("np.empty", "np.zeros") and v.args:
+                cn = counts.id
+                keep = {cn} | ({displs.id} if isinstance(displs, ast.Name) else set())
+                n_ = expand(v.args[0], {k: x for k, x in full.items() if k not in keep})
+                if _one_of(n_, (f"np.sum({cn})", f"sum({cn})", f"int(np.sum({cn}))", f"int(sum({cn}))", f"np.array({cn}).sum()",
+                                f"np.add.reduce({cn})")):
+                    pieces["buf"] = True
+                elif isinstance(displs, ast.Name) and pieces.get("displs") and \
+                        _one_of(n_, (f"{displs.id}[-1] + {cn}[-1]", f"int({displs.id}[-1] + {cn}[-1])")):
+                    pieces["buf"] = True         # exclusive prefix sums: the last block starts at starts[-1] and has sizes[-1] entries
+        if bad is None and all(k in pieces for k in ("counts", "displs", "buf")):
+            b = {"comm": comm, "rank": rk, "toSend": src(rc.args[0]), "mpi_data": "?", "_info": pieces["counts"],
+                 "_unpack": pieces.get("unpack")}
+        elif bad is None:
+            why_not = "not recognised: " + ", ".join(k for k in ("counts", "displs", "buf") if k not in pieces)
+    if b is None and bad is None and root:
+        if isinstance(spec_of(root[0]).elts[0], ast.Name):
+            rn = spec_of(root[0]).elts[0].id
             defs = [n for n in ast.walk(fn) if isinstance(n, ast.Assign) and src(n.targets[0]) == rn]
             if defs and isinstance(defs[-1].value, ast.Subscript) and src(defs[-1].value.value).startswith("self."):
                 attr = src(defs[-1].value.value)
@@ -330,12 +1380,79 @@ def b5_gatherv_geometry(chk):
     chk.pat("B5-gatherv-geometry", calls[0], "root: recv = empty(sum(counts)), displs = exclusive cumsum(counts), counts gathered from the members",
             b is not None, "the counts are the sizes every member reported, the displacements their exclusive prefix sums and the receive "
             "buffer has exactly their total", bad, file=U.GRID, func=q)
-    ok = b is not None and contains(fn, "mpi_data = comm.gather(sendInfo, root=rank)", vars=("comm", "sendInfo", "rank"),
-                                    bind={k: v for k, v in b.items() if k in ("comm", "mpi_data", "rank")}) is not None and \
-        contains(fn, "toSend = np.ndarray(0)\nsendInfo.append(0)", vars=("toSend", "sendInfo"), bind={"toSend": b["toSend"]}) is not None and \
-        contains(fn, "sendInfo.append(toSend.size)", vars=("toSend", "sendInfo"), bind={"toSend": b["toSend"]}) is not None
-    chk.pat("B5-gatherv-geometry", fn, "every member reports the size of the buffer it then sends", ok,
-            "the reported count is the size of the very array passed to Gatherv (0 for an empty contribution)", file=U.GRID, func=q)
+    # members: every definition of the send buffer is followed by the report of its size, at the place of the record where the
+    # root looks for it
+    ok2, bad2 = None, None
+    if b is not None and b.get("_unpack"):
+        # the record built in one display after the send buffer is known: [size, *coords] / [*coords, size] / coords + [size]
+        ts = b["toSend"]
+        info_n = b["_info"]
+        sizes_ok = (f"{ts}.size", f"len({ts})", f"{ts}.shape[0]", f"np.size({ts})")
+        if isinstance(info_n, ast.Name):
+            idefs = _defs_of(fn, info_n.id)
+            appends_ = [n for n in ast.walk(fn) if isinstance(n, ast.Call) and isinstance(n.func, ast.Attribute) and
+                        n.func.attr in ("append", "insert", "extend") and src(n.func.value) == info_n.id]
+            if len(idefs) == 1 and not appends_:
+                v = idefs[0].value
+                pack = None
+                if isinstance(v, ast.List) and len(v.elts) >= 2:
+                    if _one_of(v.elts[0], sizes_ok) and all(isinstance(x, ast.Starred) for x in v.elts[1:]):
+                        pack = "first"
+                    elif _one_of(v.elts[-1], sizes_ok) and all(isinstance(x, ast.Starred) for x in v.elts[:-1]):
+                        pack = "last"
+                elif isinstance(v, ast.BinOp) and isinstance(v.op, ast.Add):
+                    if isinstance(v.right, ast.List) and len(v.right.elts) == 1 and _one_of(v.right.elts[0], sizes_ok):
+                        pack = "last"
+                    elif isinstance(v.left, ast.List) and len(v.left.elts) == 1 and _one_of(v.left.elts[0], sizes_ok):
+                        pack = "first"
+                # the display must come after every definition of the send buffer (it reads its size)
+                after = all(d.lineno < idefs[0].lineno for d in _defs_of(fn, ts)) and not isinstance(parent(idefs[0]), (ast.For, ast.While))
+                if pack and after:
+                    if pack == b["_unpack"][0]:
+                        ok2 = True
+                    else:
+                        bad2 = (f"the members put the size of their buffer {pack} in the record (`{src(idefs[0])[:60]}`) but the root takes "
+                                f"the {b['_unpack'][0]} entry (`{b['_unpack'][1]}`) as the count: the counts handed to Gatherv are MPI "
+                                "coordinates, not the sizes the members send")
+    if b is not None and ok2 is None and bad2 is None:
+        ts = b["toSend"]
+        sends = {src(c.args[0]) for c in calls if c.args}
+        info = None
+        for n in ast.walk(fn):
+            if isinstance(n, ast.Call) and isinstance(n.func, ast.Attribute) and n.func.attr == "gather" and src(n.func.value) == b["comm"] and n.args:
+                info = src(n.args[0])
+        if sends == {ts} and info is not None:
+            appends = [n for n in ast.walk(fn) if isinstance(n, ast.Expr) and isinstance(n.value, ast.Call) and
+                       isinstance(n.value.func, ast.Attribute) and n.value.func.attr == "append" and src(n.value.func.value) == info
+                       and len(n.value.args) == 1]
+            defs = _defs_of(fn, ts)
+            ok2 = bool(appends) and bool(defs)
+            for d in defs:
+                # the report that follows this definition: in its block or in an enclosing one
+                node, rep = d, None
+                while node is not None and node is not fn and rep is None:
+                    par = parent(node)
+                    for f_ in ("body", "orelse"):
+                        blk = getattr(par, f_, None)
+                        if isinstance(blk, list) and node in blk:
+                            rep = next((a for a in blk[blk.index(node) + 1:] if a in appends), None)
+                    node = par
+                if rep is None:
+                    ok2 = None
+                    break
+                a0 = rep.value.args[0]
+                empty = isinstance(d.value, ast.Call) and src(d.value.func) in ("np.ndarray", "np.empty", "np.zeros") and \
+                    d.value.args and src(d.value.args[0]) in ("0", "(0,)")
+                if _one_of(a0, (f"{ts}.size", f"len({ts})", f"{ts}.shape[0]", f"np.size({ts})")) or (empty and src(a0) == "0"):
+                    continue
+                ok2 = None
+                break
+            if ok2 and b.get("_unpack") and b["_unpack"][0] != "last":
+                ok2, bad2 = None, (f"the members append the size of their buffer at the end of the record but the root takes the first entry "
+                                   f"(`{b['_unpack'][1]}`) as the count: the counts handed to Gatherv are MPI coordinates")
+    chk.pat("B5-gatherv-geometry", fn, "every member reports the size of the buffer it then sends", ok2,
+            "the reported count is the size of the very array passed to Gatherv (0 for an empty contribution), at the place of the record "
+            "where the root reads it", bad2, file=U.GRID, func=q)
 
 
 def run(chk):
@@ -346,12 +1463,22 @@ def run(chk):
         "governed region issues the same collective sequence (op, communicator, root, reduction op); loops around "
         "collectives need uniform trip conditions; B2/B3: roots and reduction ops uniform and equal on both arms "
         "of rank splits; interprocedurally every parameter that influences such a guard is uniform at all call "
-        "sites; B4: the hash-ordered choice in the route search is compensated by a total-order tie-break.")
+        "sites; B4: the hash-ordered choice in the route search is compensated by a total-order tie-break (plain or lexicographic "
+        "tuple comparison ending in the route itself), and every condition governing a store into the route table reads rank-uniform "
+        "values only (closures followed, parameters resolved at the call sites of the search); B5: counts / displacements / receive "
+        "buffer of the variable-count gather agree with what the members report, decided on the definitions reaching the call; B6: "
+        "the rank compared with the root of a rooted collective is the rank on the communicator of that collective; B7: the send and "
+        "receive buffers of Alltoall / Allgather (counts = buffer lengths) are related by the communicator size as expressions, and "
+        "neither is sized with the actual local size of a layout while the other is padded; B8: an explicit raise with collectives "
+        "still to come is taken under rank-uniform conditions only. Refinements of "
+        "engine B's verdicts made here: presence (`is None`) of attributes decided from their assignments, apart from their content; "
+        "loops over tables written out in the source have a fixed trip count and their variables take the entries of one column.")
     chk.assumptions += [
         "arguments documented as 'the same on all ranks' (layout names, foldername, saveStep, constants, file contents on a shared file system) are rank-uniform at the entry points",
         "1 <= p <= n in every distributed dimension (no empty block except on the dedicated plot-only rank)",
         "mpi4py/h5py collective semantics as listed in DESIGN.md section 3",
-        "exceptions (raise/assert) abort the whole MPI job and are not modelled as divergent control flow",
+        "failed assert statements (debugging checks) stop the whole MPI job and are not modelled as divergent control flow; an explicit "
+        "raise is: rule B8 requires its condition to be rank-uniform when collectives follow",
     ]
     for u in UNITS:
         chk.mod(u)
@@ -359,8 +1486,24 @@ def run(chk):
     lay = chk.mod(U.LAYOUT)
     b4_self_positive(chk)
     b5_gatherv_geometry(chk)
-    b4ok = b4_route_determinism(chk, lay)
-    s, tracers = run_spmd(chk, prog, UNITS, b4_ok_funcs=("_makeConnectionMap",) if b4ok else ())
+    from ..spmd import SPMD
+    # labels for the route search itself: computed as if the hash order were compensated (that is decided by B4-unordered-choice)
+    b4ok = b4_route_determinism(chk, lay, SPMD(prog, chk, UNITS, b4_ok_funcs=("_makeConnectionMap",)))
+    b6_root_role(chk, prog)
+    b7_collective_counts(chk)
+    b10_split_roles(chk)
+    proxy = _Deferring(chk)
+    try:
+        s, tracers = run_spmd(proxy, prog, UNITS, b4_ok_funcs=("_makeConnectionMap",) if b4ok else ())
+    except Exception:
+        # engine B stopped early: what it had established stays as it reported it
+        for rule, node, construct, ok, msg, kw in proxy._held + proxy._held_tables:
+            chk.ob(rule, node, construct, ok, msg, **kw)
+        raise
+    refine_presence(chk, proxy._held, s)
+    refine_tables(chk, proxy._held_tables, s)
+    b8_local_raise(chk, s, tracers)
+    b9_ordered_collective_loops(chk, s, tracers)
     ncoll = sum(len(fi.collective_sites) for fi in s.funcs.values())
     nfun = sum(1 for fi in s.funcs.values() if fi.is_collective)
     chk.extra["collective_call_sites"] = ncoll
@@ -370,3 +1513,5 @@ def run(chk):
     chk.floor("B0-collective-site", 12)
     chk.floor("B1-balanced-region", 3)
     chk.floor("B4-unordered-choice", 1)
+    chk.floor("B6-root-role", 2)
+    chk.floor("B7-collective-counts", 2)
